@@ -143,7 +143,9 @@ CHECKS = {
        "invariant that the restore theorems assume follows from three invariants of every call — OWN, SUP (in a persistent session every "
        "awaited identifier has its packet in the store) and ENT (only QoS 1/2 PUBLISH and PUBREL are stored) — so in every state of every "
        "history of a fresh object in which the session is persistent and the application holds no identifier, the export restored into a "
-       "fresh object rebuilds an EQUAL session state, and the reconnect and every continuation are equal on both. The implementation is "
+       "fresh object rebuilds an EQUAL session state, and the reconnect and every continuation are equal on both; the ordered "
+       "representation of the handled-identifier set is an invariant of every call as well (C16_handled_set_stays_ordered, identifiers "
+       "handed in within 1..idmax), so C16_history_restore_equal_full carries no representation hypothesis. The implementation is "
        "judged by the paired-run monitor (original vs restored implementation object, events + full digest) and the store-order stage.",
   ref="DESIGN.md §3 C16",
   note=CONN_NOTE + " Paired cases use determinate versions (an export cannot be restored into an object of undetermined version).",
